@@ -15,17 +15,21 @@ Correspondence / pipeline:
 import datetime
 
 from lib import common, recog, dtpipe, dtcorpus, periodcorr
+from lib import durationcorr
 from lib.common import cps, uncps
 
 PROP = 'C10'
 LEVEL = 'proof'
-PROPS_MODULES = ['RTV.Props.C10', 'RTV.Props.C10Periods']
+PROPS_MODULES = ['RTV.Props.C10', 'RTV.Props.C10Periods', 'RTV.Props.C10Durations']
 GEN = ['chartables', 'durationmaps']
 REQUIRED_THEOREMS = ['duration_timex_reads_back', 'duration_value_matches_timex', 'luis_time_span_inverse',
                      'between_dates_consistent', 'between_times_consistent', 'unit_tables_consistent',
                      # Props/C10Periods: the range computations of BaseDatePeriodParser
                      'simple_case_definite_ok', 'merge_definite_ok', 'merge_pairs_ordered', 'duration_days_weeks_ok',
-                     'month_with_year_wellformed', 'quarter_definite_ok', 'week_of_month_ranges', 'which_week_spec']
+                     'month_with_year_wellformed', 'quarter_definite_ok', 'week_of_month_ranges', 'which_week_spec',
+                     # Props/C10Durations: every path of BaseDurationParser over a software binary64, BaseSetParser
+                     'assemble_shape', 'space_integer_exact', 'combined_integer_exact', 'space_half_exact', 'combined_guard',
+                     'decimal_binary64_exact', 'merged_duration_unparsed', 'unit_first_character_witness', 'set_values']
 RULE = ('N in {1,2,3,7,30,365,1000,5000} (quick: 3 of them per spelling) × every spelling of every culture\'s duration '
         'unit_map; ordered pairs of absolute dates and of clock times in English; every range entity over the '
         'Python-supported DateTime Specs inputs of all cultures; non-trivial = distinct query that produced an entity of '
@@ -107,6 +111,7 @@ def correspond(ctx):
 
     # the range computations of BaseDatePeriodParser (RTV.Model.Periods, theorems in Props/C10Periods) against the real methods
     periodcorr.unit(ctx, n_refs=120)
+    durationcorr.unit(ctx)   # BaseDurationParser (all paths) / BaseSetParser against RTV.Model.Durations, 8 cultures
 
     # ------------------------------------------------------------- pipeline (a): N × spelling
     jobs, meta = [], []
